@@ -546,3 +546,43 @@ func TestCopyDuringSettlement(t *testing.T) {
 		lib.Sample(map[string]any{"test": "CopyDuringSettlement", "settlers": settlers, "copiers": copiers, "copies_each": perCopier, "zero_value_original": zero})
 	})
 }
+
+// ---------- the very first settlement of a constructor-less message in a process ----------
+
+// Constructor-less messages share process-wide state (one pre-closed channel). What a settlement makes observable must not
+// depend on what happened to OTHER messages earlier in the process, so these two run as the first and only test of their
+// own process (one driver step each): the first zero-value settlement of the process is a Nack, respectively an Ack.
+func firstSettlementInProcess(t *testing.T, nackFirst bool) {
+	m := &message.Message{}
+	var first, again, opposite bool
+	if nackFirst {
+		first, again, opposite = m.Nack(), m.Nack(), m.Ack()
+	} else {
+		first, again, opposite = m.Ack(), m.Ack(), m.Nack()
+	}
+	if !first || !again || opposite {
+		t.Fatalf("violation: first zero-value settlement in the process (nack first: %v): returned %v, repeated %v, opposite %v; want true, true, false", nackFirst, first, again, opposite)
+	}
+	a, n := lib.Settled(m)
+	if a == nackFirst || n != nackFirst {
+		t.Fatalf("violation: first zero-value settlement in the process (nack first: %v): Acked() closed=%v Nacked() closed=%v; exactly the matching channel must be closed", nackFirst, a, n)
+	}
+	// a second constructor-less message, settled the other way round, and the first one is still as it was
+	o := &message.Message{}
+	if nackFirst {
+		o.Ack()
+	} else {
+		o.Nack()
+	}
+	oa, on := lib.Settled(o)
+	a2, n2 := lib.Settled(m)
+	if oa != nackFirst || on == nackFirst || a2 != a || n2 != n {
+		t.Fatalf("violation: settling a second constructor-less message changed what is observed: first (acked=%v nacked=%v -> acked=%v nacked=%v), second (acked=%v nacked=%v)", a, n, a2, n2, oa, on)
+	}
+	lib.Case(fmt.Sprintf("first-in-process|nackFirst=%v", nackFirst), true, "first-zero-value-settlement-in-process")
+	lib.Case(fmt.Sprintf("first-in-process|second-message|nackFirst=%v", nackFirst), true, "first-zero-value-settlement-in-process")
+	lib.Sample(map[string]any{"test": "FirstZeroValueSettlementInProcess", "nack_first": nackFirst})
+}
+
+func TestZeroValueNackFirstInProcess(t *testing.T) { firstSettlementInProcess(t, true) }
+func TestZeroValueAckFirstInProcess(t *testing.T)  { firstSettlementInProcess(t, false) }
